@@ -18,7 +18,9 @@ def _ptr_idx(fields): return [i for i, f in enumerate(fields) if f[0] in corrupt
 directed = st.one_of(
     st.tuples(st.just(corrupt.CLASSES.index('inode')), st.integers(0, 500), st.sampled_from(_ptr_idx(corrupt.INO_FIELDS)), st.sampled_from(_DIR_KINDS), _VALS, st.just(True)),
     st.tuples(st.just(corrupt.CLASSES.index('gd')), st.integers(0, 500), st.sampled_from(_ptr_idx(corrupt.GD_FIELDS)), st.sampled_from(_DIR_KINDS), _VALS, st.just(True)),
-    st.tuples(st.sampled_from(_PTR_CLASSES), st.integers(0, 500), st.integers(0, 200), st.sampled_from(_DIR_KINDS), _VALS, st.just(True)))
+    st.tuples(st.sampled_from(_PTR_CLASSES), st.integers(0, 500), st.integers(0, 200), st.sampled_from(_DIR_KINDS), _VALS, st.just(True)),
+    # unreachable-but-locally-consistent structures: a directory cut off from its parent, alone or in a loop with one of its subdirectories
+    st.tuples(st.just(corrupt.CLASSES.index('dirloop')), st.integers(0, 500), st.integers(0, 2), st.just(0), st.integers(0, 50), st.just(True)))
 
 def strategy(env):
     return st.fixed_dictionaries(dict(cfg=st.sampled_from(CFG_NAMES), recipe=st.integers(0, len(hyp.RECIPES) - 1),
